@@ -3,7 +3,8 @@ Hand-written model of the arithmetic of kernel (DFT) fitting around the SLSQP mi
 `psd_dft_kernel_fit`): the kernel-weighted sum, the objective, the conversion from contributions to a distribution and the
 cumulative volume.  `K` is the kernel evaluated at the isotherm pressures: one row per pore width (`kernel_points`).
 The minimiser (scipy SLSQP), the cubic interpolation of the kernel file and the B-spline smoothing are not modelled: the first is
-decided by certificate in the harness, the smoothing enters the theorems as "a convex combination of the control points".
+decided by certificate in the harness.  The B-spline smoothing (`bspline` of utilities/math_utilities.py) is modelled by de Boor's recursion
+on the clamped uniform knot vector (what scipy's `splev` computes), the kernel cache `_LOADED` by a memo table.
 -/
 import Mathlib.Algebra.Order.Field.Basic
 
@@ -42,5 +43,58 @@ def feasible [LinearOrder α] (x : List α) : Prop := ∀ v ∈ x, 0 ≤ v
 
 /-- a smoothed sample is a convex combination of the control values (B-spline basis: non-negative, partition of unity) -/
 def convexComb (weights values : List α) : α := (List.zipWith (· * ·) weights values).sum
+
+
+/-! ### B-spline smoothing (utilities/math_utilities.py `bspline`, open curve; scipy `splev` evaluates by de Boor's recursion) -/
+
+/-- `numpy.clip(degree, 1, count - 1)` -/
+def clipDegree (degree count : ℕ) : ℕ := min (max degree 1) (count - 1)
+
+/-- the clamped uniform knot vector `[0]*p ++ arange(n - p + 1) ++ [n - p]*p` (n control points, degree p), by index -/
+def knot (n p i : ℕ) : α := ((min (max i p) n - p : ℕ) : α)
+
+/-- de Boor's triangular scheme on knots `t` and control values `c` (absolute indices): level 0 is the control polygon,
+level `r+1` blends neighbours with the ratio `(x - t_j) / (t_{j+p-r} - t_j)`; the curve value in the knot span `k` is
+`deBoor t c p x p k` -/
+def deBoor (t c : ℕ → α) (p : ℕ) (x : α) : ℕ → ℕ → α
+  | 0, j => c j
+  | r + 1, j =>
+    let a := (x - t j) / (t (j + p - r) - t j)
+    (1 - a) * deBoor t c p x r (j - 1) + a * deBoor t c p x r j
+
+/-- linear search of the knot span: the first `k ≥ k₀` with `x ≤ t (k+1)`, at most `fuel` steps -/
+def spanFrom [LinearOrder α] (t : ℕ → α) (x : α) : ℕ → ℕ → ℕ
+  | 0, k => k
+  | fuel + 1, k => if x ≤ t (k + 1) then k else spanFrom t x fuel (k + 1)
+
+/-- the knot span of a query in `[0, n - p]`: `p ≤ k ≤ n - 1` with `knot k ≤ x ≤ knot (k+1)` -/
+def span [LinearOrder α] (n p : ℕ) (x : α) : ℕ := spanFrom (knot n p) x (n - 1 - p) p
+
+/-- one coordinate of the open B-spline through the control values `c` at the parameter `x` -/
+def bsplineAt [LinearOrder α] (p : ℕ) (c : List α) (x : α) : α :=
+  deBoor (knot c.length p) (fun i => c.getD i 0) p x p (span c.length p x)
+
+/-- `numpy.linspace(0, count - degree, m)[i]` -/
+def query (n p m i : ℕ) : α := ((n - p : ℕ) : α) * (i : α) / ((m - 1 : ℕ) : α)
+
+/-- `bspline(xs, ys, n = m, degree)` for `degree ≥ 1`: `m` samples of both coordinates -/
+def bsplineCurve [LinearOrder α] (degree m : ℕ) (xs ys : List α) : List (α × α) :=
+  let p := clipDegree degree xs.length
+  (List.range m).map fun i =>
+    let x : α := query xs.length p m i
+    (bsplineAt p xs x, bsplineAt p ys x)
+
+/-! ### memoisation (`_LOADED` in psd_kernel.py: results of an expensive function kept in a table under a key) -/
+
+/-- one memoised call: look the key of the argument up, compute and store on a miss -/
+def memoStep {ι κ β : Type} [BEq κ] (key : ι → κ) (f : ι → β) (tbl : List (κ × β)) (a : ι) : β × List (κ × β) :=
+  match tbl.lookup (key a) with
+  | some v => (v, tbl)
+  | none => (f a, (key a, f a) :: tbl)
+
+/-- the answers of a whole history of calls, starting from the table `tbl` -/
+def memoRun {ι κ β : Type} [BEq κ] (key : ι → κ) (f : ι → β) : List (κ × β) → List ι → List β
+  | _, [] => []
+  | tbl, a :: as => (memoStep key f tbl a).1 :: memoRun key f (memoStep key f tbl a).2 as
 
 end PgVerif.Model.Kernel
